@@ -216,10 +216,13 @@ func (h *ValueReader) ReadObject(data []byte) (val map[string]interface{}, p int
 	}
 	h.objVal = make(map[string]interface{}, mapSize)
 	p, err = HandleObjectValues(data[p:], h, &h.buf)
+	valLen := len(h.objVal)
+	// This call has used the size hint whether it succeeded or not. A hint that survived a failed read would be
+	// paid for again by every later call.
+	h.lastMapSize = valLen
 	if err != nil {
 		return nil, p, err
 	}
-	valLen := len(h.objVal)
 
 	// make sure to return err for null
 	if valLen == 0 {
@@ -229,7 +232,6 @@ func (h *ValueReader) ReadObject(data []byte) (val map[string]interface{}, p int
 		}
 	}
 
-	h.lastMapSize = valLen
 	return h.objVal, p, nil
 }
 
@@ -272,11 +274,13 @@ func (h *ValueReader) ReadArray(data []byte) (val []interface{}, p int, err erro
 	}
 	h.arrVal = make([]interface{}, 0, sliceSize)
 	p, err = HandleArrayValues(data, h, &h.buf)
+	valLen := len(h.arrVal)
+	// This call has used the size hint whether it succeeded or not. A hint that survived a failed read would be
+	// paid for again by every later call.
+	h.lastSliceSize = valLen
 	if err != nil {
 		return nil, p, err
 	}
-
-	valLen := len(h.arrVal)
 
 	// make sure to return err for null
 	if valLen == 0 {
@@ -286,7 +290,6 @@ func (h *ValueReader) ReadArray(data []byte) (val []interface{}, p int, err erro
 		}
 	}
 
-	h.lastSliceSize = valLen
 	return h.arrVal, p, err
 }
 
